@@ -4,12 +4,20 @@ from checks.numlib import *
 from checks.syntaxlib import run_syntax
 
 META = {
-    "text": "Stage 1: Spec.run is a total Lean function whose outcome type has no crash alternative (outcome_defined, first_error_wins, run_is_pure) and is "
-            "differentially tied to compiler+VM, where a recovered Go panic is an outcome the model must agree on; every compiled program is run twice "
-            "(state left behind) under a watchdog; a byte-level stream feeds the real parser. Stage 2 (vm_never_panics on the bytecode model) is planned.",
-    "note": "PARTIAL: the ANTLR parser and the bytecode VM are not modelled yet, so 'never panics' is proved for Spec and observed (not proved) for the real "
-            "parser/compiler/VM on the sampled inputs. Trusted: Lean kernel; harness; watchdog timeout = hang.",
-    "technique": "Lean 4 proof (totality/typing of the Spec interpreter) + differential correspondence with panic as an outcome + crash/hang oracle",
+    "text": "Stage 1: Spec.run is a total Lean function whose outcome type has no crash alternative (outcome_defined, first_error_wins, run_is_pure). Stage 2 "
+            "(bytecode model A2, every Go panic site an explicit outcome): vm_terminates (no jumps: at most one tick per instruction), compile_never_panics (the "
+            "nil *Address of VisitExpr is never dereferenced), resolve_never_panics (ResolveResources/ResolveBalances on ANY compiled program, any variables, any "
+            "store: no failed type assertion, no nil dereference — the compiler only stores addresses of earlier resources of the right type), "
+            "vm_never_panics_partial (VM.run of a compiled program of the fragment {send from account|overdraft|max|in-order sources to an account, save, "
+            "set_tx_meta, set_account_meta, print, fail}: no wrong-typed or empty pop, no BUMP out of range, no nil balance map or nil amount, stack empty at the "
+            "end, metadata renderable). Ties: the compiler+VM models equal the real ones on every generated case (bytecode equality, outcome incl. panic/no "
+            "panic), Spec vs compiler+VM with a recovered Go panic as an outcome, every compiled program run twice under a watchdog, a byte-level stream into the "
+            "real parser.",
+    "note": "PARTIAL: vm_never_panics is proved for the fragment; for allotments and ordered destinations (MAKE_ALLOTMENT, ALLOC, BUMP n, kept) and for the ANTLR "
+            "parser, crash-freedom is observed on the sampled inputs (model and real VM agree on panic/no panic everywhere), not proved. Trusted: Lean kernel; "
+            "harness; watchdog timeout = hang.",
+    "technique": "Lean 4 proof (totality of Spec; typed resource tables, frame lemmas and stack discipline of the bytecode VM) + differential correspondence with "
+                 "panic as an outcome + crash/hang oracle",
     "design_ref": "5 (C12)",
 }
 
@@ -20,8 +28,9 @@ def panic_kind(msg):
 
 
 def run(ctx):
-    ctx.cov["trusted_base"] = TRUSTED
-    ctx.cov["partial"] = "parser and bytecode VM not modelled: crash-freedom of the real code is observed on samples, proved only for Spec"
+    ctx.cov["trusted_base"] = TRUSTED + TRUSTED_A2
+    ctx.cov["partial"] = ("vm_never_panics proved for the fragment {send from account|overdraft|max|in-order sources to an account, save, metadata, print, fail}, "
+                           "resolve_never_panics and compile_never_panics for every program; allotments / ordered destinations and the ANTLR parser: observed only")
     ctx.l1()
     if run_syntax(ctx):  # front end (lexer+parser) on script texts; True = it served a --replay of one of its own cases
         return
@@ -29,6 +38,12 @@ def run(ctx):
     if r is None:
         return
     inputs, impl, model = r
+    # ---- model A2: the VM model has explicit panic outcomes; it must agree with the real VM on whether a panic occurs
+    bc = run_bytecode(ctx, inputs)
+    if bc is not None:
+        compare_bytecode(ctx, inputs, bc[0], bc[1])
+        ctx.cov["bytecode"]["model_panics"] = sum(1 for o in bc[1].values() if "panic" in (o.get("run") or {}))
+        ctx.cov["bytecode"]["real_panics"] = sum(1 for o in bc[0].values() if "panic" in (o.get("run") or {}))
     compare(ctx, "numscript:spec-vs-vm(panic-as-outcome)", inputs, impl, model,
             proj_impl=lambda i, o: {"panic": True} if "panic" in o else {k: v for k, v in strip(o).items() if k not in ("lockR", "lockW")},
             proj_model=lambda i, o: {k: v for k, v in o.items() if k not in ("lockR", "lockW")})
